@@ -17,6 +17,7 @@ Curve arithmetic is a parameter (`Prims`).
 `Cfg` records the two places where the pinned tree is known to be defective (D3, D4); `Cfg.current` is what /repo does now.
 -/
 import AskarModel.Base.Bytes
+import AskarModel.Generated.Flags
 
 namespace Askar.Jwk
 
@@ -75,8 +76,9 @@ structure Cfg where
 
 def Cfg.pinned : Cfg := { consumeUnknown := false, ecLenCheck := false }
 def Cfg.fixed : Cfg := { consumeUnknown := true, ecLenCheck := true }
-/-- what the tree in /repo does now (flip when the D3 / D4 repairs land) -/
-def Cfg.current : Cfg := Cfg.pinned
+/-- what /repo does NOW: read from the source by tools/extract.py (Generated/Flags.lean) -/
+def Cfg.current : Cfg :=
+  { consumeUnknown := Askar.Generated.Flags.jwkConsumesUnknown, ecLenCheck := Askar.Generated.Flags.ecSecretLenCheck }
 
 /-! ## base64url, strict, unpadded -/
 
